@@ -130,3 +130,12 @@ Theorem C13_affine_chains_associate :
     apply (compose (compose a b) c) p = apply (compose a (compose b c)) p.
 Proof. exact compose_assoc. Qed.
 Print Assumptions C13_affine_chains_associate.
+
+(* ---- part 3: the flattening product is nalgebra's 4x4 product, for any scalar type ---- *)
+From FV Require Import Expr Affine4.
+Theorem C13_affine_product_is_the_4x4_product :
+  forall (T : Type) (S : @SC T) (a b : list T),
+    length a = 12%nat -> length b = 12%nat ->
+    firstn 12%nat (mat4_mul S (embed4 S a) (embed4 S b)) = aff_mul S a b.
+Proof. exact (@aff_mul_is_mat4_mul). Qed.
+Print Assumptions C13_affine_product_is_the_4x4_product.
